@@ -103,6 +103,9 @@ class BatchSuite(Suite):
             groups.append({"batchSize": rng.choice([0, 1, 1, 2, 2, 3, 4, 5]), "timeBased": tb, "tryAdd": rng.random() < .6,
                            "wallSec": wall, "procs": rng.choice([1, 1, 2, 4]) if (tb or rng.random() < .5) else None,
                            "dryRun": False})
+            if ng > 1 and rng.random() < .5:       # run options are per group: groups may differ in them
+                groups[-1]["verbose"] = rng.random() < .5
+                groups[-1]["distributed"] = rng.random() < .5
         if rng.random() < .08:
             for g in groups:
                 g["dryRun"] = True
@@ -355,8 +358,11 @@ class BatchSuite(Suite):
             if b["_run"] is not None:
                 want = f"config_batch_{b['_idx']}.json"
                 np_ = g["procs"]
+                dsub = "--distributed-submitter" if g.get("distributed", True) else "--no-distributed-submitter"
+                words = b["_run"].split()
                 if want not in b["_run"] or ("--num-parallel-processes-per-node" in b["_run"]) != (np_ is not None) or \
-                        (np_ is not None and f"--num-parallel-processes-per-node={np_}" not in b["_run"]):
+                        (np_ is not None and f"--num-parallel-processes-per-node={np_}" not in b["_run"]) or \
+                        dsub not in words or ("--verbose" in words) != bool(g.get("verbose", False)):
                     v.append(Violation("C07", "batch.run_options", f"run script of batch {b['_idx']} does not carry group {gi}'s options: {b['_run']!r}"))
             else:
                 v.append(Violation("C07", "batch.no_run_script", f"no run script for batch {b['_idx']}"))
